@@ -677,6 +677,17 @@ class Program:
                         if g is not None and g.name != '__init__' \
                                 and not g.is_property:
                             out.append((n, g))
+            elif isinstance(n, (ast.Tuple, ast.List, ast.Set, ast.Dict)) \
+                    and isinstance(getattr(n, 'ctx', ast.Load()), ast.Load):
+                # functions / bound methods kept in a local table
+                elts = n.values if isinstance(n, ast.Dict) else n.elts
+                for a in elts:
+                    if isinstance(a, (ast.Attribute, ast.Name)):
+                        fake = ast.Call(func=a, args=[], keywords=[])
+                        g = self.callee_of(finfo, fake)
+                        if g is not None and g.name != '__init__' \
+                                and not g.is_property:
+                            out.append((n, g))
             elif isinstance(n, ast.Attribute) and isinstance(
                     n.value, ast.Name) and n.value.id in ('self', 'cls') \
                     and finfo.cls is not None and isinstance(n.ctx, ast.Load):
@@ -693,6 +704,16 @@ class Program:
                                 g = self.find_method(finfo.cls.qual, el.id)
                                 if g is not None:
                                     out.append((n, g))
+            elif isinstance(n, ast.Name) and isinstance(n.ctx, ast.Load):
+                # a module-level table of this module's functions
+                tab = self.module_constants(finfo.module,
+                                            names_ok=True).get(n.id)
+                if isinstance(tab, (ast.Tuple, ast.List)):
+                    for el in tab.elts:
+                        g = self.functions.get('%s.%s' % (
+                            finfo.module.name, getattr(el, 'id', None)))
+                        if g is not None:
+                            out.append((n, g))
         self._callees[finfo.qual] = out
         return out
 
